@@ -26,7 +26,7 @@ COMPONENTS = {"real": ["pyjelly parse.ioutils (framing detection, frame iterator
 ASSUMPTIONS = ["blocking binary sources only (readinto never returns None)",
                "seekable sources are buffered (documented input contract)"]
 PROBES = ["preamble_runs", "gzip_multi_member", "first_read_lt3", "first_read_1", "frontend_raw", "frontend_buffered", "frontend_gzip", "frontend_duck",
-          "frontend_rwpair", "frontend_autoclose",
+          "frontend_rwpair", "frontend_autoclose", "frontend_greedy", "frontend_strict", "frontend_gzip_pipe",
           "frontend_seekable_buffered", "nondelimited", "leading_empty_frames", "short_reads_ge10"]
 SHRINK_LISTS = ["ops", "items"]
 
@@ -46,7 +46,7 @@ def generate(rng, run, tier):
         plan["knobs"]["leading_empty"] = rng.random() < 0.5
     plan["consumer"] = rng.choice(["flat", "flat", "grouped", "to_graph", "plugin"])
     plan["frontend"] = rng.choice(["raw", "raw", "buffered", "buffered", "seekable_buffered", "seekable_buffered", "gzip",
-                                   "duck", "rwpair", "bytesio", "autoclose"])
+                                   "duck", "rwpair", "bytesio", "autoclose", "greedy", "strict", "gzip_pipe"])
     plan["policy"] = rng.choice(["tape", "tape", "tape", "one"])
     plan["bufsize"] = rng.choice([None, None, 1, 2, 3, 4, 16, 8192])
     # the caller may have consumed a preamble from a seekable file before handing it over; the payload then
